@@ -237,6 +237,10 @@ func (c *tracingHTTP2Conn) newStreamLocked(frame *http2.MetaHeadersFrame) *http2
 	stream := &http2Stream{
 		builder:       builder,
 		requestTracer: dataTracer{isRequest: true, isStreamProtocol: isStream, decompressor: decompressor, builder: builder},
+		// The properties of the response are not known until its headers arrive.
+		// But a misbehaving server could send DATA frames before any headers, so
+		// the tracer for response data must never be without a builder.
+		responseTracer: dataTracer{builder: builder},
 	}
 	c.collector.newAttempt(builder.trace.TestName)
 	if c.streams == nil {
